@@ -96,7 +96,11 @@ pub fn construct(k: usize, i: usize, sp: &str) -> MDef {
             let mut p = MParam::new("a", MType::prim("int32"));
             p.attrs.push(MAttr::with("cs::p", vec![MArg::Ident("tag".into())]));
             let o3 = op("attrp", vec![p], MRet::None);
-            iface(&n("IAttr", i), vec![], vec![o1, o2, o3])
+            // a parameter and a return member may share a name (they are members of two lists), and a parameter may be
+            // called like the placeholder of an unnamed return value
+            let o4 = op("same", vec![MParam::new("a", MType::prim("int32"))], MRet::Tuple(vec![MParam::new("a", MType::prim("string")), MParam::new("b", MType::prim("bool"))]));
+            let o5 = op("placeholder", vec![MParam::new("returnValue", MType::prim("int32"))], MRet::Single { tag: None, stream: false, ty: MType::prim("string") });
+            iface(&n("IAttr", i), vec![], vec![o1, o2, o3, o4, o5])
         }
         16 => {
             let mut o = op("doc", vec![MParam::new("a", MType::prim("int32")), MParam::new("b", MType::prim("bool"))], MRet::Tuple(vec![MParam::new("x", MType::prim("int32")), MParam::new("y", MType::prim("int32"))]));
